@@ -356,7 +356,7 @@ pub fn run(tier: &str, slice: (u64, u64), seed: u64) -> WorkerResult {
             let idx = (i + seed) % total;
             let opsq = ops::seq_of(&sr.alphabet, depth, idx);
             let vs = run_case::<String>(&sr.cfg, &sr.prefix, &opsq, None, &mut res, false);
-            if res.samples.len() < 2 {
+            if res.samples.len() < 2 && idx % 97 == 55 {
                 res.sample(case_json::<String>(&sr.cfg, &sr.prefix, &opsq, 0, &[]));
             }
             for v in vs {
